@@ -58,7 +58,7 @@ WL_ERROR_PAIRS = {'files': [{'path': 'lib/libcxx.so', 'v1': 'cxx_v0', 'v2': 'cxx
                   'format': 'dir', 'abignore': 'none', 'options': ['--no-default-suppression', '--fail-no-dbg']}
 
 
-def gen_workload(rng, big=False, devel=False, same_prefix=False, extended=True, swarm=False, splitdbg=False):
+def gen_workload(rng, big=False, devel=False, same_prefix=False, extended=True, swarm=False, splitdbg=False, deb=False):
     """A package pair as data: files = [{path, v1, v2}] where v1/v2 name a pool library or None.
     same_prefix: keep the pair where the tool's binary matching is unambiguous (see elf_dirs_prefix): if the removals and
     additions left the two sides with different ELF directory prefixes, a pair of binaries at the package root is added,
@@ -171,6 +171,8 @@ def gen_workload(rng, big=False, devel=False, same_prefix=False, extended=True, 
         # own (--d1/--d2; usr/lib/debug/<file>.debug reached through usr/lib/debug/.build-id/xx/yyyy.debug).  Drawn last, so
         # that the rest of the workload is what it was before this dimension existed.
         wl['splitdbg'] = True
+    if deb and wl['format'] != 'dir' and rng.chance(1, 2):
+        wl['format'] = 'deb'       # a Debian package (extracted with dpkg -x; content at the top of the extraction directory)
     return wl
 
 
@@ -214,14 +216,7 @@ def materialise(wl, libs, root, order_rng=None):
         if wl['format'] == 'dir':
             out.append(d)
         else:
-            ext = wl['format']
-            tarp = d + '.' + ext
-            cmd = ['tar', '-C', root, '-c' + ('z' if ext.endswith('gz') else '') + 'f', tarp, os.path.basename(d)]
-            p = subprocess.run(cmd, stdout=subprocess.PIPE, stderr=subprocess.STDOUT)
-            if p.returncode != 0:
-                raise C.InfraError('tar failed: %s' % p.stdout[-300:])
-            shutil.rmtree(d)
-            out.append(tarp)
+            out.append(_archive(wl['format'], root, d, top_member=True))
     if wl.get('splitdbg'):
         for side, key in (('f', 'v1'), ('s', 'v2')):
             d = os.path.join(root, 'pkg-%s1-debuginfo' % side)
@@ -242,11 +237,7 @@ def materialise(wl, libs, root, order_rng=None):
                             shutil.copyfile(src, dst)
             if wl['format'] != 'dir':
                 # abipkgdiff looks for <extraction directory>/usr/lib/debug: the archive has usr/ as its top-level member
-                ext = wl['format']
-                p = subprocess.run(['tar', '-C', d, '-c' + ('z' if ext.endswith('gz') else '') + 'f', d + '.' + ext, 'usr'], stdout=subprocess.PIPE, stderr=subprocess.STDOUT)
-                if p.returncode != 0:
-                    raise C.InfraError('tar failed: %s' % p.stdout[-300:])
-                shutil.rmtree(d)
+                _archive(wl['format'], root, d, top_member=False)
     if wl.get('devel'):
         for side in ('f', 's'):
             d = os.path.join(root, 'pkg-%s1-devel' % side, 'usr', 'include')
@@ -254,6 +245,26 @@ def materialise(wl, libs, root, order_rng=None):
             for h in ('shapes.h', 'fnptr.h', 'geo.h'):
                 open(os.path.join(d, h), 'w').write('/* public header */\nstruct %s_public;\n' % h[:-2])
     return out[0], out[1]
+
+
+def _archive(fmt, root, d, top_member):
+    """pack directory d (under root) as d.<fmt> and remove it.  tar archives of a package carry the package directory as their
+    top-level member (top_member), those of a debug-info package and every .deb have the content at the top."""
+    out = d + '.' + fmt
+    if fmt == 'deb':
+        os.makedirs(os.path.join(d, 'DEBIAN'))
+        open(os.path.join(d, 'DEBIAN', 'control'), 'w').write(
+            'Package: %s\nVersion: 1.0\nArchitecture: amd64\nMaintainer: nobody <nobody@example.org>\nDescription: workload package\n' % os.path.basename(d).lower())
+        cmd = ['dpkg-deb', '--root-owner-group', '-b', d, out]
+    elif top_member:
+        cmd = ['tar', '-C', root, '-c' + ('z' if fmt.endswith('gz') else '') + 'f', out, os.path.basename(d)]
+    else:
+        cmd = ['tar', '-C', d, '-c' + ('z' if fmt.endswith('gz') else '') + 'f', out, 'usr']
+    p = subprocess.run(cmd, stdout=subprocess.PIPE, stderr=subprocess.STDOUT)
+    if p.returncode != 0:
+        raise C.InfraError('%s failed: %s' % (cmd[0], p.stdout[-300:]))
+    shutil.rmtree(d)
+    return out
 
 
 def spec(wl, p1, p2, simt, parallel=True, extra=None, root=None):
@@ -301,7 +312,7 @@ def model(wl, pair_status):
     package is matched exactly when the second package has a binary at the same relative path."""
     # the Removed/Added lists print paths relative to the extraction root; an archive made by materialise() has the
     # package directory as its top-level member
-    top1, top2 = ('', '') if wl['format'] == 'dir' else ('pkg-f1/', 'pkg-s1/')
+    top1, top2 = ('', '') if wl['format'] in ('dir', 'deb') else ('pkg-f1/', 'pkg-s1/')
     status = 0
     sections, removed, added, errors = [], [], [], []
     dl = wl.get('dirlink')
